@@ -5,6 +5,10 @@ set -u
 cd "$(dirname "$0")"
 IDS="$@"; [ -z "$IDS" ] && IDS=$(ls selftest/mutants)
 fail=0; total=0
+# one snapshot of /repo for the whole run (mutants are applied to copies of it; /repo itself is never touched)
+BASE=/var/tmp/verif-selftest-base-$$
+rm -rf $BASE; mkdir -p $BASE; rsync -a --exclude .git /repo/ $BASE/
+trap 'rm -rf $BASE' EXIT
 for ID in $IDS; do
   [ -d selftest/mutants/$ID ] || continue
   for P in selftest/mutants/$ID/*.patch; do
@@ -12,7 +16,7 @@ for ID in $IDS; do
     total=$((total+1))
     W=/var/tmp/verif-selftest-$$-$total
     rm -rf $W; mkdir -p $W
-    rsync -a --exclude .git /repo/ $W/repo/
+    rsync -a $BASE/ $W/repo/
     if ! (cd $W/repo && patch -p1 -s --no-backup-if-mismatch < /verif/$P) >/dev/null 2>&1; then
       echo "SELFTEST $ID $(basename $P): patch does not apply"; fail=$((fail+1)); rm -rf $W; continue
     fi
